@@ -85,6 +85,15 @@ fn bounded_search_over_encoded_path_parameters() {
     assert_eq!(extract_path::<Wide>(&r4, "/-128/340282366920938463463374607431768211455").unwrap(), Wide { big: u128::MAX, tiny: i8::MIN });
     assert!(extract_path::<Wide>(&r4, "/-129/1").is_err() && extract_path::<Wide>(&r4, "/+1/1").is_ok() == "+1".parse::<i8>().is_ok(), "numbers are parsed the way str::parse does");
     assert!(extract_path::<Wide>(&r4, "/%201/1").is_err(), "a number with an encoded leading space is not a number");
+    // long unparsable values with multi-byte characters at every offset around 64: the documented error, never a panic
+    for pad in 55..75usize {
+        for filler in ["é", "日", "😀"] {
+            let v = format!("{}{}", "9".repeat(pad), filler.repeat(6));
+            let path = format!("/1/{}", enc(&v));
+            let r = std::panic::catch_unwind(std::panic::AssertUnwindSafe(|| extract_path::<Wide>(&r4, &path).is_err()));
+            assert!(matches!(r, Ok(true)), "a {}-byte unparsable value with a multi-byte character near offset 64 must be rejected cleanly, got {r:?}", v.len());
+        }
+    }
     // values are taken as they are: surrounding blanks are part of a string, and make a number / boolean / char invalid
     assert_eq!(extract_path::<One>(&r1, "/%20padded%20").unwrap().v, " padded ");
     assert!(extract_path::<Wide>(&r4, "/1%20/1").is_err() && extract_path::<Wide>(&r4, "/1/%091").is_err(), "a padded number is not a number");
